@@ -107,7 +107,7 @@ def jobs(pid, tier):
         if q:
             return [vrt('C17', [r'sf1_.*', r'sf_copy_before_init', r'sf_init_copy_getpromise', r'sf_reference_identity'], bound=2, workers=2),
                     vrt('C17', [r'sf2_(promfn|futfn)_(val|drop)_(wait-coro|coro-drop|drop-drop|copydrop-poll|coro-coro|wait-drop)_.*'], bound=2, workers=2),
-                    vrt('C17', [r'sf1_(promfn|futfn|getpromise|promfn-thread|futfn-thread|shift|reuse)_(val|drop)_(wait|coro|drop|cbfn)_.*'], bound=3, workers=4)]
+                    vrt('C17', [r'sf1_(promfn|futfn|getpromise|promfn-thread|futfn-thread|shift|reuse|coro)_(val|drop)_(wait|coro|drop|cbfn)_.*'], bound=3, workers=4)]
         return [vrt('C17', [r'sf1_.*', r'sf_copy_before_init', r'sf_init_copy_getpromise', r'sf_reference_identity'], unbounded=True, workers=2),
                 vrt('C17', [r'sf2_.*'], bound=3, workers=4)]
     if pid == 'C11':
